@@ -1,2 +1,3 @@
 import Ops.Core
 import Ops.Codec
+import Ops.Transforms
